@@ -119,6 +119,48 @@ fn idem_oracle(case: &Case) -> Option<(String, Option<&'static str>)> {
         rel_cov(r2).iter().map(|x| &x.0).collect::<Vec<_>>()), named))
 }
 
+/// The hypotheses of `C05_rewrite_idempotent_sharp` (Props/C05Rewrite.lean), restated on the first
+/// report with `std::path` only: no mapping, `--ignore-not-existing` off, the source dir absent or
+/// clean and absolute, every reported path non-empty and
+/// * `hrel`   the prefix dir is not a component-wise prefix of it,
+/// * `hguess` if it is relative and there is a source dir `S`: `S/path` is a regular file, or no
+///            non-empty leading part of the path is a tail of `S`,
+/// * `habs`   if it is absolute, it is not below `S`.
+/// (The tree must be link-free and the cwd clean: the caller's trees are.)
+fn sharp_guards(cfg: &Cfg, r1: &Recs) -> bool {
+    if cfg.mapping.is_some() || cfg.ine {
+        return false;
+    }
+    if let Some(sd) = &cfg.sd {
+        if !sd.starts_with('/') || spec_normalize(sd).as_deref() != Some(sd.as_str()) {
+            return false;
+        }
+    }
+    r1.iter().all(|(_, rel, _)| {
+        let p = Path::new(rel);
+        let hne = !rel.is_empty();
+        let hrel = match &cfg.pd {
+            None => true,
+            Some(pd) => match p.strip_prefix(pd) {
+                Ok(t) => t == p,
+                Err(_) => true,
+            },
+        };
+        let (hguess, habs) = match &cfg.sd {
+            None => (true, true),
+            Some(sd) => {
+                let s = Path::new(sd);
+                if p.is_relative() {
+                    (s.join(p).is_file() || !p.ancestors().any(|a| !a.as_os_str().is_empty() && s.ends_with(a)), true)
+                } else {
+                    (true, !p.starts_with(s))
+                }
+            }
+        };
+        hne && hrel && hguess && habs
+    })
+}
+
 fn shrink_entries(case: &Case, bad: &dyn Fn(&Case) -> bool) -> Case {
     let mut cur = case.clone();
     let mut progress = true;
@@ -172,6 +214,22 @@ fn run_cases(rep: &mut Report, t: &Tree, cases: &[Case], tag: &str) {
             (Ok(_), None) => rep.count("idem.skipped_duplicate_paths"),
             (Ok(r1), Some(Ok(r2))) => {
                 rep.count(if rel_cov(r1) == rel_cov(r2) { "idem.same" } else { "idem.changed" });
+                // C05_rewrite_idempotent_sharp: on a link-free tree the three guards imply idempotence
+                if t.rel_links.is_empty() {
+                    let g = sharp_guards(&case.cfg, r1);
+                    let same = rel_cov(r1) == rel_cov(r2);
+                    rep.count(match (g, same) {
+                        (true, true) => "idem.sharp.guards_hold.same",
+                        (true, false) => "idem.sharp.guards_hold.CHANGED",
+                        (false, true) => "idem.sharp.some_guard_fails.same",
+                        (false, false) => "idem.sharp.some_guard_fails.changed",
+                    });
+                    if g && !same {
+                        rep.fail("oracle", None,
+                            "re-import: the guards hrel / hguess / habs of C05_rewrite_idempotent_sharp hold of the first report, yet the second report differs".into(),
+                            case.to_json("c11.idem.twice", t));
+                    }
+                }
                 let a1: Vec<&String> = r1.iter().map(|x| &x.0).collect();
                 let same_abs = r2.iter().all(|x| a1.contains(&&x.0));
                 rep.count(if same_abs { "idem.abs_same" } else { "idem.abs_changed" });
